@@ -12,13 +12,13 @@ open MW.Spec.KV (DB reroot viaShapeOK mutating setIf deadSpec deadViaSpec)
 /-- bucket handles held by the caller ↔ the paths the specification keeps for them -/
 structure RegRel (regs : AMap.T Nat Bucket) (sregs : AMap.T Nat Path) : Prop where
   dom : ∀ h, (AMap.get regs h).isSome = (AMap.get sregs h).isSome
-  val : ∀ h b p, AMap.get regs h = some b → AMap.get sregs h = some p → pureNav p = some b
+  val : ∀ h b p, AMap.get regs h = some b → AMap.get sregs h = some p → pureNav p = some b ∧ b.IsAt p
 
 theorem RegRel.nil : RegRel [] [] := ⟨fun _ => rfl, fun _ _ _ h => by cases h⟩
 
 theorem RegRel.set {regs : AMap.T Nat Bucket} {sregs : AMap.T Nat Path} (hr : RegRel regs sregs) (h : Nat)
     {ob : Option Bucket} {p : Path} {found : Bool} (hf : ob.isSome = found)
-    (hv : ∀ b, ob = some b → pureNav p = some b) : RegRel (optSet regs h ob) (setIf sregs h p found) := by
+    (hv : ∀ b, ob = some b → pureNav p = some b ∧ b.IsAt p) : RegRel (optSet regs h ob) (setIf sregs h p found) := by
   cases ob with
   | none =>
     have : found = false := by rw [← hf]; rfl
